@@ -483,8 +483,21 @@ func runC20(r *rt.Runner) {
 				}
 			}
 		}
+		// argument lists that read the same once joined with some separator: a result remembered under a joined key
+		// would be handed to the wrong caller
+		for _, sep := range []string{"/", "\x00", ",", ":", "|", " ", "-", "", "\x1f"} {
+			argv = append(argv, arg{"ns", []string{"tenant" + sep + "1234", "foo"}}, arg{"ns", []string{"tenant", "1234" + sep + "foo"}}, arg{"ns", []string{"tenant" + sep + "1234" + sep + "foo"}},
+				arg{"ns" + sep + "tenant", []string{"1234", "foo"}}, arg{"ns", []string{"tenant", "1234", "foo"}})
+		}
 		first := make([]id62.UUID, len(argv))
-		for i, a := range argv {
+		// odd worker processes make the first calls in the opposite order: what a call returns must not depend on
+		// which calls came before it (compared across processes below)
+		for k := range argv {
+			i := k
+			if r.Cfg.Shard%2 == 1 {
+				i = len(argv) - 1 - k
+			}
+			a := argv[i]
 			first[i] = id62.NewHash(a.ns, a.ins...)
 			c.Eval(rt.Hash("hash", a.ns, strings.Join(a.ins, "\x01")), true)
 		}
